@@ -608,6 +608,81 @@ def write_only(chk, variants):
                           f"properties present are {wo_present}", rep)
 
 
+
+def response_side_documents(chk):
+    """The response-side reading of a documented schema must not depend on HOW the document writes it: inline or behind a
+    reference, OpenAPI 3 or Swagger 2.0 (`x-writeOnly`), one file or several.  Designed family, independent oracle (no model):
+    schema {id: integer readOnly required, name: string required, password: string writeOnly}; a response body deviates iff it
+    carries `password` or lacks `id` / `name`."""
+    import tempfile
+    import os
+    names = ["id", "name", "password"]
+
+    def schema_for(wo):
+        return {"type": "object", "properties": {"id": {"type": "integer", "readOnly": True}, "name": {"type": "string"},
+                                                  "password": {"type": "string", wo: True}}, "required": ["id", "name"]}
+    flavours = []
+    s3, s2 = schema_for("writeOnly"), schema_for("x-writeOnly")
+    flavours.append(("openapi3-inline", _doc3({"200": {"description": "d", "content": {"application/json": {"schema": s3}}}})))
+    flavours.append(("openapi3-ref", _doc3({"200": {"description": "d", "content": {"application/json": {"schema": {"$ref": "#/components/schemas/U"}}}}},
+                                           {"schemas": {"U": s3}})))
+    v2 = lambda schema, defs=None: {"swagger": "2.0", "info": {"title": "t", "version": "1"}, **({"definitions": defs} if defs else {}),  # noqa: E731
+                                    "paths": {"/x": {"get": {"produces": ["application/json"],
+                                                             "responses": {"200": {"description": "d", "schema": schema}}}}}}
+    flavours.append(("swagger2-inline", v2(s2)))
+    flavours.append(("swagger2-ref", v2({"$ref": "#/definitions/U"}, {"U": s2})))
+    flavours.append(("swagger2-inline-array", v2({"type": "array", "items": s2})))
+    for label, raw in flavours:
+        op = load_operation(raw)
+        for k in range(4):
+            for present in itertools.combinations(names, k):
+                obj = {n: (1 if n == "id" else "x") for n in present}
+                body = json.dumps([obj] if label.endswith("array") else obj).encode()
+                resp = {"status": 200, "headers": {"Content-Type": "application/json"}, "content": body}
+                impl = run_impl(op, resp)
+                deviates = "password" in present or "id" not in present or "name" not in present
+                chk.case("response-side-conversion", key=[label, list(present)], nontrivial=True,
+                         sample={"flavour": label, "present": list(present), "impl": impl["body"], "deviates": deviates})
+                chk.feature(f"response-side-conversion:{label}")
+                if fails(impl["body"]) != deviates:
+                    chk.violation(f"C04:response_schema_conformance:readOnly-writeOnly-reading-depends-on-document-form:{label}",
+                                  f"a response body with properties {list(present)} {'is reported' if fails(impl['body']) else 'passes'} "
+                                  f"although it {'deviates from' if deviates else 'conforms to'} the documented schema (id readOnly+required, "
+                                  f"name required, password writeOnly) written as {label}", {"doc": raw, "present": list(present), "impl": impl})
+    # several files: the same local reference text denotes different schemas in different files
+    with tempfile.TemporaryDirectory(prefix="verif-c04-") as d:
+        root = _doc3({"200": {"description": "d", "content": {"application/json": {"schema": {
+            "type": "object", "required": ["billing", "customer"],
+            "properties": {"billing": {"$ref": "#/components/schemas/Address"},
+                           "customer": {"$ref": "customer.json#/components/schemas/Customer"}}}}}}},
+            {"schemas": {"Address": {"type": "object", "required": ["street"], "properties": {"street": {"type": "string"}},
+                                     "additionalProperties": False}}})
+        customer = {"components": {"schemas": {
+            "Customer": {"type": "object", "required": ["address"], "properties": {"address": {"$ref": "#/components/schemas/Address"}}},
+            "Address": {"type": "object", "required": ["city"], "properties": {"city": {"type": "string"}}, "additionalProperties": False}}}}
+        with open(os.path.join(d, "root.json"), "w") as f:
+            json.dump(root, f)
+        with open(os.path.join(d, "customer.json"), "w") as f:
+            json.dump(customer, f)
+        with warnings.catch_warnings():
+            warnings.simplefilter("ignore")
+            op = schemathesis.openapi.from_path(os.path.join(d, "root.json"))["/x"]["GET"]
+        for billing, address, deviates in [({"street": "s"}, {"city": "c"}, False), ({"street": "s"}, {"street": "s"}, True),
+                                           ({"city": "c"}, {"city": "c"}, True), ({"city": "c"}, {"street": "s"}, True)]:
+            body = json.dumps({"billing": billing, "customer": {"address": address}}).encode()
+            # more than once on the same loaded schema: whatever the first validation leaves behind must not change the next
+            for rep in range(2):
+                impl = run_impl(op, {"status": 200, "headers": {"Content-Type": "application/json"}, "content": body})
+                chk.case("response-side-conversion", key=["multi-file", billing, address, rep], nontrivial=True,
+                         sample={"flavour": "multi-file", "billing": billing, "address": address, "impl": impl["body"]})
+                chk.feature("response-side-conversion:multi-file")
+                if fails(impl["body"]) != deviates:
+                    chk.violation("C04:response_schema_conformance:same-reference-text-in-two-files-resolved-to-one-schema",
+                                  f"body billing={billing} customer.address={address} {'is reported' if fails(impl['body']) else 'passes'}: "
+                                  "`#/components/schemas/Address` means one schema in root.json and another in customer.json",
+                                  {"root": root, "customer.json": customer, "billing": billing, "address": address, "impl": impl})
+
+
 # ---- entry points --------------------------------------------------------------------------------------------------
 
 def run(chk):
@@ -680,6 +755,7 @@ def run(chk):
     run_pairs(chk, "witness", WITNESSES, variants)
     undecodable_body(chk, variants)
     write_only(chk, variants)
+    response_side_documents(chk)
     integer_keys(chk, chk.budget(60, 600))
     # 2. the pure helpers
     expand_corr(chk, chk.budget(400, 4000))
